@@ -27,6 +27,7 @@ type Extractor struct {
 	NoInline        map[string]bool // short names never inlined
 	cloFn           map[AtomID]*ssa.MakeClosure
 	cloFC           map[AtomID]*FC // the context that created the closure
+	funcOf          map[AtomID]*ssa.Function // function values (func: atoms)
 	BenignWriteTags map[string]bool
 	caseBudget      int
 	inSign          bool
@@ -45,7 +46,7 @@ type Extractor struct {
 
 func NewExtractor(w *World, eff *Effects) *Extractor {
 	return &Extractor{W: w, S: NewSym(), Eff: eff, depth: map[*ssa.Function]int{}, NoInline: map[string]bool{},
-		cloFn: map[AtomID]*ssa.MakeClosure{}, cloFC: map[AtomID]*FC{}, BenignWriteTags: map[string]bool{}, signCache: map[string]Tri{}, phiOf: map[AtomID]*ssa.Phi{}, phiFC: map[AtomID]*FC{}, memphiOf: map[AtomID]memphiInfo{}, fcCache: map[*ssa.Function]*FC{}, MaxInlineBlocks: 14}
+		cloFn: map[AtomID]*ssa.MakeClosure{}, cloFC: map[AtomID]*FC{}, funcOf: map[AtomID]*ssa.Function{}, BenignWriteTags: map[string]bool{}, signCache: map[string]Tri{}, phiOf: map[AtomID]*ssa.Phi{}, phiFC: map[AtomID]*FC{}, memphiOf: map[AtomID]memphiInfo{}, fcCache: map[*ssa.Function]*FC{}, MaxInlineBlocks: 14}
 }
 
 // Assumption: either an equality atom := value, or a condition with a truth value.
@@ -560,7 +561,9 @@ func (fc *FC) val(v ssa.Value) *RF {
 	case *ssa.Global:
 		return s.Var("global:"+x.W.relPkg(v.Pkg.Pkg)+"."+v.Name(), false)
 	case *ssa.Function:
-		return s.Var("func:"+x.W.FuncName(v), false)
+		fr := s.Var("func:"+x.W.FuncName(v), false)
+		x.funcOf[fr.SingleAtom().ID] = v
+		return fr
 	case *ssa.FreeVar:
 		return s.Var(fmt.Sprintf("fvptr:%s:%s", x.W.FuncName(fc.Fn), v.Name()), false)
 	case *ssa.BinOp:
@@ -1425,6 +1428,34 @@ func (fc *FC) phi(p *ssa.Phi) *RF {
 	fc.X.phiOf[atom.SingleAtom().ID] = p
 	fc.X.phiFC[atom.SingleAtom().ID] = fc
 	if isHeader {
+		// a value carried round the loop unchanged (every back edge brings the phi itself) is
+		// the value the loop was entered with
+		invariant := true
+		initBy := map[int]*RF{}
+		var one *RF
+		same := true
+		for i, v := range vals {
+			if fc.Ctx.Dominates(p.Block(), preds[i]) {
+				if v != ssa.Value(p) {
+					invariant = false
+				}
+				continue
+			}
+			rv := fc.Val(v)
+			if one != nil && !one.Equal(rv) {
+				same = false
+			}
+			one = rv
+			initBy[preds[i].Index] = rv
+		}
+		if invariant && one != nil {
+			if same {
+				return one
+			}
+			if r := fc.mergeAt(p.Block(), func(pb *ssa.BasicBlock) *RF { return initBy[pb.Index] }); r != nil {
+				return r
+			}
+		}
 		return atom
 	}
 	rfs := make([]*RF, len(vals))
@@ -1528,10 +1559,34 @@ func (fc *FC) call(c *ssa.Call) *RF {
 		return x.callFn(f, args, iargs)
 	}
 	// call through a function value
-	fv := fc.Val(cm.Value)
-	if at := fv.SingleAtom(); at != nil {
+	return x.applyValue(fc.Val(cm.Value), args, 0)
+}
+
+// applyValue: the value of calling the function value fv: a known closure or
+// function is called as such, a bound method value is the method call on the
+// bound receiver, and a value chosen between several (uniform := f; if c {
+// uniform = g }) is the same choice between the calls.
+func (x *Extractor) applyValue(fv *RF, args []*RF, depth int) *RF {
+	s := x.S
+	if at := fv.SingleAtom(); at != nil && depth < 6 {
+		if at.Name == "ite" && len(at.Args) == 3 {
+			return s.Ite(at.Args[0], x.applyValue(at.Args[1], args, depth+1), x.applyValue(at.Args[2], args, depth+1))
+		}
 		if mc, ok := x.cloFn[at.ID]; ok {
+			f := mc.Fn.(*ssa.Function)
+			if strings.HasPrefix(f.Synthetic, "bound method wrapper") && len(mc.Bindings) == 1 && x.cloFC[at.ID] != nil {
+				if obj, ok := f.Object().(*types.Func); ok {
+					recv := x.cloFC[at.ID].Val(mc.Bindings[0])
+					if m := f.Prog.FuncValue(obj); m != nil {
+						return x.callFn(m, append([]*RF{recv}, args...), append([]*RF{recv}, args...))
+					}
+					return s.MakeFn("call:"+obj.Name(), append([]*RF{recv}, args...)...)
+				}
+			}
 			return x.callClosure(mc, args, nil)
+		}
+		if f, ok := x.funcOf[at.ID]; ok && f.Signature.Recv() == nil && len(f.FreeVars) == 0 {
+			return x.callFn(f, args, args)
 		}
 	}
 	return s.MakeFn("apply", append([]*RF{fv}, args...)...)
@@ -2113,6 +2168,13 @@ func (x *Extractor) evalBySign(name string, d *RF, assume []Assumption) Tri {
 	x.signSteps, x.signLimit = 0, 250
 	defer func() { x.signActive = false }()
 	pos, neg := g.Pos(d), g.Pos(d.Neg()) // l>r, l<r
+	if os.Getenv("GMSA_SIGN_TRACE") != "" && (pos || neg) {
+		fmt.Fprintf(os.Stderr, "SIGN %s d=%s pos=%v neg=%v used=%v\n  facts:", name, clip(d.String(), 300), pos, neg, g.Used)
+		for _, f := range g.facts {
+			fmt.Fprintf(os.Stderr, " [%v]", f)
+		}
+		fmt.Fprintln(os.Stderr)
+	}
 	switch name {
 	case "cmp<":
 		if neg {
